@@ -247,51 +247,49 @@ def check_no_evict_in_half_open(cb, rep, rule):
 def check_window_dispatch(cb, rep, rule):
     """both recorders choose the window (count-based counters vs time-based records) by the configured
     sliding_window_type — the selector every reader (threshold evaluation, half-open decisions) uses.  A recorder
-    that dispatches on anything else files outcomes where the readers do not look."""
-    facts, tr = cb.facts, cb.tr
-    crate = facts.crates[CRATE]
+    that dispatches on anything else files outcomes where the readers do not look.  Decided on the fully inlined
+    body of each recorder, so it does not matter into which private helpers the updates are factored."""
+    from ..inline import view_of
+    ffacts, ftr = view_of(cb.facts, "full")
     n = 0
     for role in ("record_success", "record_failure"):
-        R = cb.by_role(role)
-        if R is None:
+        R0 = cb.by_role(role)
+        if R0 is None:
             rep.anchor_missing("circuit method with role " + role)
             continue
+        R = ffacts.bodies.get(R0.def_)
         rep.saw(R)
         g = graph(R)
         sites = []
         for c in g.calls():
             # time-based: push onto a container of the circuit
             if c.name in ("push_back", "push", "push_front") and c.args:
-                recv = peel(tr.expand(tr.operand(R, c.args[0], c.loc)))
+                recv = peel(ftr.expand(ftr.operand(R, c.args[0], c.loc)))
                 if recv[0] == "field" and recv[3] == cb.circuit_adt:
-                    sites.append(("time-based record", "TimeBased", c))
-                    continue
-            # count-based: a local helper that increments integer counters of the circuit
-            for d in c.targets_def():
-                hb = facts.bodies.get(d)
-                if hb is None or hb is cb.transition or hb.crate.name != CRATE or not cb._is_circuit_method(hb) or hb.def_ in cb.roles:
-                    continue
-                incs = 0
-                for i, blk in enumerate(hb.blocks):
-                    for j, s_ in enumerate(blk["stmts"]):
-                        if s_["k"] == "assign" and s_["lhs"]["p"]:
-                            last = s_["lhs"]["p"][-1]
-                            if isinstance(last, dict) and last.get("adt") == cb.circuit_adt:
-                                v = peel(tr.stmt_value(hb, i, j))
-                                if v[0] == "field" and peel(v[1])[0] == "binop":
-                                    v = peel(v[1])
-                                if v[0] == "binop" and v[1].startswith("Add"):
-                                    incs += 1
-                if incs:
-                    sites.append(("count-based counters", "CountBased", c))
-        for k, (what, want, c) in enumerate(sites):
+                    sites.append(("time-based record", "TimeBased", c.bb, c.where()))
+        # count-based: increments of integer counters of the circuit
+        for i, blk in enumerate(R.blocks):
+            for j, s_ in enumerate(blk["stmts"]):
+                if s_["k"] == "assign" and s_["lhs"]["p"]:
+                    last = s_["lhs"]["p"][-1]
+                    if isinstance(last, dict) and last.get("adt") == cb.circuit_adt:
+                        v = peel(ftr.stmt_value(R, i, j))
+                        if v[0] == "field" and peel(v[1])[0] == "binop":
+                            v = peel(v[1])
+                        if v[0] == "binop" and v[1].startswith("Add"):
+                            sites.append(("count-based counters", "CountBased", i, g.where(i, j)))
+        sites = [x for x in sites if g.live(x[2])]      # arms made dead by the recorder's constant arguments do not count
+        arms_seen = {}
+        for k, (what, want, bb, wh) in enumerate(sites):
             n += 1
             arm = None
-            for e in dominating_edges(tr, R, c.bb):
-                if e["kind"] == "enum" and e["label"] in ("CountBased", "TimeBased") and mentions_field(tr, e["node"], "sliding_window_type"):
+            for e in dominating_edges(ftr, R, bb):
+                if e["kind"] == "enum" and e["label"] in ("CountBased", "TimeBased") and mentions_field(ftr, e["node"], "sliding_window_type"):
                     arm = e["label"]
-            ok = arm == want
-            rep.ob(rule, skey(R, "%s#%d" % (what.split()[0], k)), ok, c.where(),
+            # counters are the count-based window; a container may belong to either window (the count-based one keeps
+            # a record queue too): it only has to sit on *an* arm of the selector
+            ok = (arm == want) if what.startswith("count") else (arm is not None)
+            rep.ob(rule, skey(R, "%s#%d" % (what.split()[0], k)), ok, wh,
                    "%s are updated on the %s arm of config.sliding_window_type" % (what, want) if ok else
                    "%s updates the %s %s: the threshold evaluation and the half-open decisions select the window by "
                    "config.sliding_window_type, so outcomes recorded here are not seen by them"
